@@ -152,6 +152,9 @@ SPECS["C04"] = dict(
         dict(name="inst_value_rel", comment="... applied to every symbolic argument, also inside keyword lists and arrays; everything else is unchanged"),
         dict(name="inst_ops_rel"),
         dict(name="inst_vars_rel"),
+        dict(name="inst_value_rel_num", comment="with numeric values (no parameter inside the values) the result is a number: the relational theorems at VFlt strength"),
+        dict(name="inst_ops_rel_num"),
+        dict(name="inst_vars_rel_num"),
         dict(name="pars_invariant", comment="the reported free parameters cover every parameter occurring in operations and variables"),
         dict(name="pars_monotone"),
         dict(name="inst_closed", comment="an instantiated program has no free parameter left"),
@@ -167,6 +170,8 @@ SPECS["C07"] = dict(
     items=[
         dict(name="expand_is_rename", comment="a call appends the included program's operations, in order, with its modes (taken in increasing order) renamed to the modes listed at the call"),
         dict(name="expand_include_inv", comment="... with its parameters bound to the call's keyword arguments (templates)"),
+        dict(name="subst_term_compose", comment="NESTED includes: binding an inner template's parameters to symbolic values of the caller and then binding the caller's parameters equals binding the inner parameters to the bound values (simultaneous substitution, not sequential)"),
+        dict(name="inst_value_compose"),
         dict(name="sortZ_sorted"),
         dict(name="sortZ_perm"),
         dict(name="expand_modes", comment="the renamed operations use exactly the call's modes"),
@@ -178,7 +183,7 @@ SPECS["C07"] = dict(
         dict(name="expand_missing_refused"),
         dict(name="modes_union_incs"),
     ],
-    examples="(* non-vacuity: LoadP.ex_include evaluates two calls of an included program with modes renamed in increasing order *)\n")
+    examples="(* non-vacuity: LoadP.ex_include evaluates two calls of an included program with modes renamed in increasing order;\n   LoadP.ex_symbolic_include: an include called with a symbolic value stays symbolic *)\n")
 
 
 SPECS["C08"] = dict(
